@@ -54,7 +54,23 @@ var xnames = []string{"x1", "x2", "x3"}
 var keys = []string{"k1", "k2", "a.b", "a.b.c", "a", "b"}
 var patterns = []string{"k1", "a.*", "a.#", "#", "*.b", "#.c", "a.b", "*"}
 
-func (g *gen) pick(xs []string) string { return xs[g.r.Intn(len(xs))] }
+// corners of topic routing, used now and then: the empty routing key (no words at all), the empty pattern, wildcards
+// inside a word (refused by queue.bind / queue.unbind on a topic exchange, ordinary characters elsewhere)
+var cornerKeys = []string{"-", "-", "a*", "a."}
+var cornerPatterns = []string{"-", "a*", "a.b#", "#x.b", "*.", ".#"}
+
+func (g *gen) pick(xs []string) string {
+	if g.r.Chance(1, 14) {
+		// same random stream whatever the list: the corner lists are picked by identity of the caller's list
+		if len(xs) == len(keys) && xs[0] == keys[0] {
+			return cornerKeys[g.r.Intn(len(cornerKeys))]
+		}
+		if len(xs) == len(patterns) && xs[0] == patterns[0] && xs[1] == patterns[1] {
+			return cornerPatterns[g.r.Intn(len(cornerPatterns))]
+		}
+	}
+	return xs[g.r.Intn(len(xs))]
+}
 func (g *gen) b(num, den int) string {
 	if g.r.Chance(num, den) {
 		return "1"
